@@ -823,7 +823,7 @@ def _unify_var(
     """Helper function for unification of type or const variables."""
     if var in subst:
         return unify(subst[var], t, subst)
-    if isinstance(t, ExistentialTypeVar) and t in subst:
+    if isinstance(t, ExistentialTypeVar | ExistentialConstVar) and t in subst:
         return unify(var, subst[t], subst)
     if _occurs(var, t, subst):
         return None
